@@ -299,7 +299,8 @@ class Values:
     def __init__(self, ix, f, abstract=None, dag=None):
         self.ix = ix
         self.f = f
-        self.pv = Prov(ix, f, ssa=True, abstract=abstract)
+        self.pv = Prov(ix, f, ssa=True)
+        self.abstract = dict(abstract or {})
         self.dag = dag or Dag()
         self._memo = {}
         self._busy = set()
@@ -413,6 +414,16 @@ class Values:
         """node of an expression evaluated at statement at_stmt"""
         e = self._subst(copy.deepcopy(expr), at_stmt)
         e = self.pv._finish_ast(e) if hasattr(self.pv, "_finish_ast") else e
+        if self.abstract:
+            ab = self.abstract
+
+            class A(ast.NodeTransformer):
+                def visit_Call(self, node):
+                    if isinstance(node.func, ast.Name) and node.func.id in ab:
+                        return ast.Name(id=ab[node.func.id], ctx=ast.Load())  # one opaque symbol per producer
+                    return self.generic_visit(node)
+
+            e = A().visit(e)
         e = self._bind_args(e)
         return self.dag.intern_tree(e)
 
